@@ -205,6 +205,12 @@ def run(tier, replay):
             raise ToolError("ChainConc.tla violates its safety invariants in the model (%s)" % cfg)
         mcs.append({"config": cfg, "distinct_states": r.distinct, "states_generated": r.generated})
 
+    # the model (with check_orphan's decision and insertion as separate steps) exhibits a design-level
+    # race: a block can be left in the orphan pool although its parent body is stored; the real runs
+    # below (directed delay) look for it on the code
+    rr = vlib.tlc("mc/MC_ChainConc", "mc/MC_ChainConc_race", workers=4, coverage=False, timeout=900)
+    race_in_model = "FinalSequential" in rr.invariant_violated
+
     # (B) real threads, TLC-generated trees and delivery multisets
     n = 120 if thorough else 14
     behs, _ = chainlib.gen_sim("mc/MC_Chain_simemit", n * 2, vlib.seed(), workers=4, timeout=1500)
@@ -234,7 +240,7 @@ def run(tier, replay):
         "samples": [{"protocol_process_block_next": protos.get("process_block_next"), "protocol_validate_tx": protos.get("validate_tx")},
                     {"scenario_threads": scen[0]["threads"], "final": outs[0].get("final")}],
         "lock_protocols_recorded": len(plist), "lock_model": {"distinct_states": r1.distinct, "threads": 3},
-        "chainconc_models": mcs,
+        "chainconc_models": mcs, "stranded_orphan_race_in_model": race_in_model,
         "real_runs": st, "directed_delay_runs": st2,
         "operations_with_protocols": pnames,
     }
